@@ -153,3 +153,23 @@ def shared_truecond_clean():
 def class_flag():
     from program.assignment import FunctionalAssignment
     return bool(FunctionalAssignment.exact_func_moments)
+
+
+DEFAULT_INT_DIGITS = 4300
+
+
+def knobs():
+    """interpreter-global settings an analysis has no business changing for the rest of the process"""
+    import sys
+    import os
+    return {"recursionlimit": sys.getrecursionlimit(),
+            "int_max_str_digits": sys.get_int_max_str_digits() if hasattr(sys, "get_int_max_str_digits") else None,
+            "cwd": os.getcwd()}
+
+
+def knobs_default():
+    """a world starts like a fresh interpreter: the harness processes themselves run without the integer-text limit"""
+    import sys
+    if hasattr(sys, "set_int_max_str_digits"):
+        sys.set_int_max_str_digits(DEFAULT_INT_DIGITS)
+
